@@ -150,6 +150,7 @@ def submodule_update(
     from ..submodule import iter_cached_submodules
     from . import (
         DEFAULT_ENCODING,
+        Error,
         clone,
         open_repo_closing,
         reset,
@@ -210,6 +211,17 @@ def submodule_update(
 
             # Get or create the submodule repository paths
             submodule_path = os.path.join(r.path, path_str)
+            # like git, never check a submodule out at or through a symlink
+            from ..index import InvalidPathError, verify_leading_dirs
+
+            try:
+                verify_leading_dirs(path, [], os.fsencode(r.path))
+            except InvalidPathError as exc:
+                raise Error(
+                    f"refusing submodule path through a symlink: {path!r}"
+                ) from exc
+            if os.path.islink(submodule_path):
+                raise Error(f"refusing submodule path that is a symlink: {path!r}")
             submodule_git_dir = os.path.join(r.controldir(), "modules", path_str)
 
             # Clone or fetch the submodule
